@@ -6,8 +6,8 @@ import os
 VERIF = os.path.dirname(os.path.dirname(os.path.abspath(__file__)))
 
 CHECKS = {
-    "C08": ("three runtime monitors on real engines and real worker pools: bit-identity of stored samples across repeated seeded runs (fresh interpreters / perturbed generators), audit hook on numpy.random.seed / random.seed recording installed generator states, tagged pre-drawn rows whose consumption is logged (pid, row id) in an append-only file shared with the forked workers",
-            "Held-on-observed: seeded single-process runs repeat bit for bit (standard and multilevel, fixed-date and jump-time); no generator state re-installed after use; every pre-drawn row consumed once across 1, 2, 4 workers and different chunkings; no bit-equal samples.",
+    "C08": ("three runtime monitors on real engines and real worker pools: bit-identity of stored samples across repeated seeded runs (fresh interpreters / perturbed generators), audit hook on numpy.random.seed / random.seed recording installed generator states, tagged pre-drawn rows whose consumption is logged (pid, row id) in an append-only file shared with the forked workers, the same file receiving every seeding of every process (generator state digests)",
+            "Held-on-observed: seeded single-process runs repeat bit for bit (standard and multilevel, fixed-date and jump-time); no generator state re-installed after use; every pre-drawn row consumed once across 1, 2, 4 workers and different chunkings; no generator state installed twice in any process of a run; no bit-equal fine payoffs inside a level.",
             "Schedules are those the OS produced in the runs (not enumerated); time-outs are inconclusive.", "3/C08"),
     "C20": ("monitors on the real calibration functions with pre-screened problems and deep snapshots of the input model (independent COS repricing of the rebuilt model); Parameters objects driven through generated assignment histories and compared with directly constructed models; constraint probes",
             "Held-on-observed: calibrated value inside the interval, reprices the target, same model type, input untouched (generic, ATM and default calibration for HEM, Merton, VG, CGMY); rebuilt = direct model on density, integrals, exponent, drifts, cumulants after 1..8 assignments; every constrained attribute rejects invalid values and keeps the old one.",
@@ -21,9 +21,9 @@ CHECKS = {
     "C15": ("record-only taps on the variate sources (scripted jump counts; recorded jump times, sampled states / jump sizes, normals) around the real simulators in their three modes; the path is recomputed by the harness from the recorded variates; direct calls of the two build_finer_grid closures",
             "Held-on-observed: times 0 = t_0 < ... = T, running jump sums and running diffusion sums for 2..13 product dates, step cap incl. after the last jump and on paths without jump, original points kept, inserted points repeat the previous value, fine/coarse aligned; direct, 1-d chain, copula chain, 1-d coupling, copula coupling.",
             "Finite-variation copulas; small grids.", "3/C15"),
-    "C05": ("sequential reference model fed by the event log of a scripted coupling process (unique-id samples) run through the real multilevel engine; record-only wrappers on Statistic.add (fresh row below the allocated size)",
-            "Held-on-observed: Nl, stored rows, price, ml, vl, level means/variances, cl, cost, kurtosis recomputed from exactly the logged samples over adaptive histories (late levels, multi-pass) and the fixed-level variant.",
-            "Single process; scalar payoff without control variates in this check; budget-limited runs are inconclusive.", "3/C05"),
+    "C05": ("sequential reference model fed by the event log of a scripted coupling process (unique-id samples) run through the real multilevel engine; record-only wrappers on Statistic.add (fresh row below the allocated size); payoff dimension 1..3 and 0..2 regression control variates with an independent regression as oracle",
+            "Held-on-observed: Nl, stored rows, price, ml, vl, level means/variances, cl, cost, kurtosis recomputed from exactly the logged samples over adaptive histories (late levels, multi-pass) and the fixed-level variant, with and without control variates, scalar and vector payoffs.",
+            "Single process; control samples that are (nearly) degenerate at a level are skipped and counted; budget-limited runs are inconclusive.", "3/C05"),
     "C06": ("(a) contract on the real allocation function with the bias tolerance of the stopping test observed by bisection; (b) recorded-event checker over runs of the real engine with wrapped criteria / allocation callables",
             "Held-on-observed: sum V_l/N_l + T^2 <= rmse^2 on vectors with dynamic range 1e-12..1e6 and zeros; runs never exceed the maximum level, return only on a true criteria or at the maximum level with every level within the 1% rule.",
             "Termination restated as a bound on the number of samples.", "3/C06"),
